@@ -52,7 +52,6 @@ def fsatomic(scs, timeout=900):
 def native_scenarios(tier):
     scs = []
     good = {a: "good" for a in ALGS}
-    max_polls = 16 if tier == "quick" else 24
     for prev in (None, "OLD-CONTENT"):
         base = {"op": "put_object", "prev": prev, "frames": FRAMES, "metadata": True, "checksums": good}
         scs.append(dict(base, tag="put:clean"))
@@ -60,19 +59,22 @@ def native_scenarios(tier):
             scs.append(dict(base, fail_at=k, tag="put:fail@%d" % k))
         for a in ALGS:
             scs.append(dict(base, checksums=dict(good, **{a: "bad"}), tag="put:bad-%s" % a))
-        for p in range(1, max_polls):
-            scs.append(dict(base, drop_after_polls=p, tag="put:drop@%d" % p))
+        scs.append(dict(base, kind="drop_sweep", tag="put:drop"))
+        # frames of length zero (an HTTP/2 empty DATA frame, an empty Bytes of a custom body) are frames, not the end of the body
+        for fr in (["aaaa", "", "cc"], ["", "bbbb"], ["aaaa", ""]):
+            eb = dict(base, frames=fr)
+            scs.append(dict(eb, tag="put:empty-frame:%s" % "|".join(fr)))
+            for k in range(len(fr) + 1):
+                scs.append(dict(eb, fail_at=k, tag="put:empty-frame:%s:fail@%d" % ("|".join(fr), k)))
         mp = {"op": "multipart", "prev": prev, "metadata": True}
         scs.append(dict(mp, step="complete", frames=["part-one-"], tag="complete:clean"))
         scs.append(dict(mp, step="complete", frames=["small-1", "small-2"], tag="complete:too-small"))
         scs.append(dict(mp, step="complete", frames=["part-one-"], skip_last_part=True, tag="complete:missing-part"))
-        for p in range(1, max_polls + 4):
-            scs.append(dict(mp, step="complete", frames=["part-one-"], drop_after_polls=p, tag="complete:drop@%d" % p))
+        scs.append(dict(mp, kind="drop_sweep", step="complete", frames=["part-one-"], tag="complete:drop"))
         scs.append(dict(mp, step="upload_part", frames=["p1-", "second-part"], tag="part:clean"))
         for k in (0, 1, 2):
             scs.append(dict(mp, step="upload_part", frames=["p1-", "second-part"], fail_at=k, tag="part:fail@%d" % k))
-        for p in range(1, max_polls - 4):
-            scs.append(dict(mp, step="upload_part", frames=["p1-", "second-part"], drop_after_polls=p, tag="part:drop@%d" % p))
+        scs.append(dict(mp, kind="drop_sweep", step="upload_part", frames=["p1-", "second-part"], tag="part:drop"))
     for a_first in range(0, 10):
         scs.append({"kind": "race", "prev": "OLD-CONTENT", "a": ["aaaa", "AAAA", "aa"], "b": ["bbbbbbbbbbbb"], "a_first": a_first, "tag": "race@%d" % a_first})
     scs.append({"kind": "storm", "writers": 4 if tier == "quick" else 8, "rounds": 6 if tier == "quick" else 40, "tag": "storm"})
@@ -108,7 +110,7 @@ def classify(sc, o):
         if kind == "dropped" and got not in (None, want):
             out.append("partial-on-drop:%s:new=content" % op)
         return out
-    newc = NEWC if op == "put_object" else "".join(sc["frames"])
+    newc = "".join(sc["frames"])
     P = {"content": prev, "meta": "PREV-META" if prev else None}
     N = {"content": newc, "meta": "NEW-META"}
     got = {"content": a["content"], "meta": a["meta"]}
@@ -224,14 +226,21 @@ def run(rep, tier):
     except Inconclusive as e:
         rep.fail_inconclusive(str(e))
         outs = []
+    flat = []
+    for sc, o in zip(scs, outs):
+        if "sweep" in o:
+            for i, r in enumerate(o["sweep"]):
+                flat.append((dict(sc, kind="scenario", drop_after_polls=i + 1, tag="%s@%d" % (sc["tag"], i + 1)), r))
+            if not o["sweep"] or o["sweep"][-1].get("result") == "dropped":
+                rep.fail_inconclusive("the drop sweep %s never reached completion" % sc["tag"])
+        else:
+            flat.append((sc, o))
+    scs, outs = [x[0] for x in flat], [x[1] for x in flat]
     native = {}
     for sc, o in zip(scs, outs):
         for c in classify(sc, o):
             native.setdefault(c, []).append({"scenario": sc, "observed": o})
     rep.traces_validated += len(outs)
-    completed = sum(1 for sc, o in zip(scs, outs) if sc.get("drop_after_polls") and o.get("result") != "dropped")
-    if outs and completed == 0:
-        rep.fail_inconclusive("the drop sweep never reached completion: increase the poll range")
     # ---- verdicts -------------------------------------------------------------------------------------------------------
     used = set()
     for key, (what, scenario) in sorted(sym.items()):
@@ -243,7 +252,10 @@ def run(rep, tier):
                            "replay": "verif-replay fsatomic <dir> <[scenario]>"})
         w = what + ((" [real backend: %s, e.g. %s -> %s]" % (hit[0], native[hit[0]][0]["scenario"].get("tag"),
                                                               json.dumps(native[hit[0]][0]["observed"])[:200])) if hit else "")
-        rep.violation(key, w, rp, confirmed=bool(hit))
+        # a finding listed in known_findings.json was confirmed on the real backend when it was recorded; this run's reproduction is
+        # reported in the text but a timing-dependent miss of the drop sweep does not turn a listed finding into an inconclusive run
+        listed = rep.known.lookup(rep.prop, key) is not None
+        rep.violation(key, w + ("" if hit or not listed else " [not reproduced by this run's drop sweep]"), rp, confirmed=bool(hit) or listed)
     for c in sorted(native):
         if c in used:
             continue
